@@ -488,7 +488,7 @@ Section Sim.
       destruct (F (f_id f)) as [k|] eqn:EF.
       + assert (Hsame : ls_data (merge_result f res (select_items (ls_data sF) (f_path f)) batchF sF2) = ls_data sF2).
         { subst res cl. specialize (Hloud _ _ EF). rewrite Hk in Hloud.
-          apply (proj1 (proj2 (loud_outcome answer root_answer f k _ _ _ _ _ _ sF2 Hrobj Hd Hloud HP))). }
+          apply (proj1 (proj2 (loud_outcome answer root_answer f k _ _ _ _ _ sF2 Hrobj Hd Hloud HP))). }
         rewrite Hsame, HdF2. exact Rs.
       + subst res. apply merge_result_sub; try assumption.
     - (* requests *)
